@@ -141,6 +141,9 @@ func jsonKindOK(kind string, nullable bool, v interface{}) bool {
 	if v == nil {
 		return nullable
 	}
+	if strings.Contains(kind, "|") {
+		return true // mixed-kind column: only the NULL clause above is checked through the command line
+	}
 	switch kind {
 	case "Int", "Float":
 		_, ok := v.(float64)
@@ -166,14 +169,20 @@ func jsonKindOK(kind string, nullable bool, v interface{}) bool {
 type csvKind struct {
 	name    string
 	preview []string
+	accepts []string // the kinds of cell the inferred type admits (besides NULL)
 }
 
+// single-kind columns and mixed-kind columns (their inferred type is a union without NULL unless a cell is empty)
 var csvKinds = []csvKind{
-	{"Int", []string{"1", "2", "42", "-7"}},
-	{"Float", []string{"1.5", "2.25", "1e3"}},
-	{"Boolean", []string{"true", "false"}},
-	{"Time", []string{"2020-01-02T03:04:05Z", "2021-05-06T07:08:09.5+05:30"}},
-	{"String", []string{"abc", "xyz"}},
+	{"Int", []string{"1", "2", "42", "-7"}, []string{"Int"}},
+	{"Float", []string{"1.5", "2.25", "1e3"}, []string{"Float"}},
+	{"Boolean", []string{"true", "false"}, []string{"Boolean"}},
+	{"Time", []string{"2020-01-02T03:04:05Z", "2021-05-06T07:08:09.5+05:30"}, []string{"Time"}},
+	{"String", []string{"abc", "xyz"}, []string{"String"}},
+	{"Int | String", []string{"1", "abc", "2"}, []string{"Int", "String"}},
+	{"Int | Boolean", []string{"1", "true", "2", "false"}, []string{"Int", "Boolean"}},
+	{"Float | Boolean | Time", []string{"1.5", "true", "2020-01-02T03:04:05Z"}, []string{"Float", "Boolean", "Time"}},
+	{"Int | Float | Time", []string{"1", "2020-01-02T03:04:05Z", "2.5"}, []string{"Int", "Float", "Time"}},
 }
 
 // late cell shapes; SHORT / LONG are row shapes
@@ -196,18 +205,22 @@ func csvTextKind(s string) string {
 }
 
 // does the late cell fit a column of that kind (so that the row has to be produced)?
-func csvFits(kind string, nullable bool, cell string) bool {
+func csvFits(kind csvKind, nullable bool, cell string) bool {
 	if cell == "" {
 		return nullable
 	}
 	k := csvTextKind(cell)
-	switch kind {
-	case "String":
-		return true
-	case "Float":
-		return k == "Int" || k == "Float"
+	for _, a := range kind.accepts {
+		switch {
+		case a == "String":
+			return true
+		case a == "Float" && (k == "Int" || k == "Float"):
+			return true
+		case a == k:
+			return true
+		}
 	}
-	return k == kind
+	return false
 }
 
 func csvMatrix(cf *lib.CaseFile, seed int64, dir string, tier string) (cliFiles []cliCase) {
@@ -291,7 +304,7 @@ func csvMatrix(cf *lib.CaseFile, seed int64, dir string, tier string) (cliFiles 
 					fail(w)
 					continue
 				}
-				fits := shape != "SHORT" && shape != "LONG" && csvFits(kind.name, nullable, shape)
+				fits := shape != "SHORT" && shape != "LONG" && csvFits(kind, nullable, shape)
 				if fits && rerr != nil {
 					fail(fmt.Sprintf("late cell %q fits the %s column (nullable=%v) but the run failed: %v", shape, kind.name, nullable, rerr))
 					continue
